@@ -882,6 +882,32 @@ def main(ctx, replay):
             ctx.notes.append("wire-run not available: " + err[-300:])
     except (OSError, ValueError, KeyError) as e:
         ctx.notes.append("wire scenarios skipped: %r" % (e,))
+    # ---- the target ANSWERS (complete status line and header) and the response body then fails: the delivery is classified by the status
+    #      it answered - a 2xx is acked, a 404 dead-lettered as no_retry, a 503 retried - whatever happens to the body afterwards
+    try:
+        acases = [{"status": st, "body": b} for st in (200, 204, 404, 503, 302) for b in ("complete", "none", "short", "chunked-break", "stall")]
+        rc, out, err = C.harness_run(H, ["wire-answer"], {"cases": acases}, timeout=120)
+        if rc == 0:
+            dist["answered_then_body_fails"] = {}
+            for c, r in zip(acases, json.loads(out)["cases"]):
+                evaluations += 1
+                nontrivial.add(("answer", c["status"], c["body"]))
+                k = "%d:%s" % (c["status"], c["body"])
+                dist["answered_then_body_fails"][k] = [r["status_code"], bool(r["err"])]
+                # what classifyDelivery does with this Result (Err takes precedence over StatusCode) against what the answered status prescribes
+                want = prop_action(0, c["status"], 1, 3)
+                got = prop_action(5 if r["err"] else 0, r["status_code"], 1, 3)
+                if r["status_code"] != c["status"] or got != want:
+                    C.report(ctx, "answered-status-overridden:%s" % c["body"],
+                             "the target answered %d and its response body then %s: the real HTTPDeliverer returned status %d with error %r, which classifyDelivery settles as "
+                             "action %d; the answered status prescribes action %d (0 ack, 1 retry, 2 dead no_retry)" %
+                             (c["status"], {"complete": "arrived whole", "none": "was empty", "short": "ended early (connection closed)",
+                                            "chunked-break": "broke in the middle of a chunk", "stall": "stalled past the delivery timeout"}[c["body"]],
+                              r["status_code"], r["err"], got, want), {"kind": "request", "case": c, "observed": r})
+        else:
+            ctx.notes.append("wire-answer not available: " + err[-300:])
+    except (OSError, ValueError, KeyError) as e:
+        ctx.notes.append("answered-then-body-fails scenarios skipped: %r" % (e,))
     tick("wire")
     # ---- what the real PushDispatcher.Start asks the store for: every route's Dequeue must request routeDequeueBatch messages under a
     #      lease of routeLeaseTTL(targets, slack, that batch) - the two functions whose arithmetic is compared with the model above
